@@ -1,4 +1,5 @@
 import RscelModel.Lemmas.LexLoc
+import RscelModel.Lemmas.ParseLoc
 import RscelModel.Model.Spans
 /-
 C18 — Syntax-tree spans are exact and nested; syntax errors point inside the source.
@@ -9,6 +10,11 @@ What is proved here, and about what:
   `string_tokenizer.rs` by the token-stream correspondence run): `loc_valid` (the scanner's (line, column)
   is always a position of the text), `tokens_increasing_disjoint`, `tokens_pairwise_disjoint`,
   `token_spans_in_source`, `lex_error_in_source`.
+* **Parser model, all inputs** (`Model/Parse.lean`, run on the lazy tokenizer exactly as `CelCompiler` runs on
+  `StringTokenizer`): `syntax_error_in_source` — whatever text is given, a syntax error of `parseProgram`
+  carries a line and column within the source or at the end of one of its lines (induction over the common
+  fuel of the 22 mutually recursive `parse*` functions, `Lemmas/ParseLoc.lean`: every error location is one
+  the token source handed out — its current location, a token's start, or a lexical error).
 * **The span checker** (`Model/Spans.lean`): `SpanTree.check` is proved to imply the nested / disjoint /
   in-source statements of the property for *every* node of the tree (`check_child_within_parent`,
   `check_descendant_within`, `check_siblings_disjoint`, `check_unrelated_disjoint`, `check_span_in_source`,
@@ -75,6 +81,18 @@ theorem lex_error_in_source (src : List Char) (e : LexErr) (h : tokenize src = .
   exact posFrom_valid this
 
 example : (match tokenize "a\n 'x".toList with | .error e => e.loc | .ok _ => ⟨0, 0⟩) = ⟨1, 3⟩ := by decide
+
+/-! ## parser -/
+
+/-- **A syntax error points into the source** (all inputs): if compiling `src` fails in the parser or in
+    the tokenizer underneath it, the reported line exists in `src` and the column is at most the length of
+    that line. -/
+theorem syntax_error_in_source (src : List Char) (e : PErr) (h : parseProgram lazySrc src = .error e) :
+    e.loc.validIn src = true :=
+  posFrom_valid (parseProgram_err (lazySrc_ok src) src (lazySrc_init src) h)
+
+example : (match parseProgram lazySrc "+".toList with | .error e => e.loc | .ok _ => ⟨9, 9⟩) = ⟨0, 1⟩ := by
+  decide
 
 /-! ## the span checker -/
 
